@@ -243,6 +243,14 @@ func (fr *frame) visit(instr ssa.Instruction) cont {
 	case *ssa.ChangeType:
 		fr.env[instr] = fr.get(instr.X)
 	case *ssa.Convert:
+		if r.eng.race {
+			if sl, ok := fr.get(instr.X).(SliceV); ok && r.raceOn() && !fr.user {
+				// string(b): every element of b is read
+				for i := range sl.Data {
+					r.raceAccess(&sl.Data[i], false, fr, instr)
+				}
+			}
+		}
 		fr.env[instr] = r.conv(instr.Type(), instr.X.Type(), fr.get(instr.X))
 	case *ssa.MakeInterface:
 		fr.env[instr] = Iface{T: instr.X.Type(), V: fr.get(instr.X)}
@@ -1287,6 +1295,9 @@ func (r *Run) callBuiltin(fr *frame, name string, args []Value) Value {
 			for i := range bs {
 				if i >= len(dst.Data) {
 					break
+				}
+				if r.raceOn() && !fr.user {
+					r.raceAccess(&dst.Data[i], true, fr, nil)
 				}
 				if bs[i].Op == "bvlit" {
 					dst.Data[i] = IntV{C: bs[i].Val}
